@@ -96,3 +96,12 @@ Proof.
   match goal with |- context [wcl_done ?X] => destruct (wcl_done X) eqn:W end; try rewrite W; reflexivity.
 Qed.
 End Callbacks.
+
+(* ---- ClientSession.close(): the coroutine up to its first await (or its end) --------------------------------------- *)
+Theorem close_start_src_eq : forall s, cst s = CQueued ->
+  run_close s = ClientSession_close_start s.
+Proof.
+  intros s H. unfold run_close, ClientSession_close_start. rewrite H.
+  unfold set_closing, set_cst, task_cancel_reconnect. cbv zeta. cbn [tr].
+  destruct (tr s); reflexivity.
+Qed.
